@@ -10,6 +10,7 @@ import (
 	"strings"
 	"sync"
 
+	"verif/checker/internal/engine"
 	"verif/checker/internal/report"
 )
 
@@ -232,10 +233,5 @@ func engineConcerns(f report.Finding, prop string) bool {
 	if f.Property == "" {
 		return true
 	}
-	for _, p := range strings.Split(f.Property, ",") {
-		if p == prop {
-			return true
-		}
-	}
-	return false
+	return engine.ConcernsList(strings.Split(f.Property, ","), prop)
 }
